@@ -72,7 +72,7 @@ RetOf(bins, p) ==
     IN  IF b \in 1..n THEN b - 1
         ELSE IF b = 0 THEN -1
         ELSE IF b = n + 1 THEN n
-        ELSE NoneRet        \* gap; for NaN the return value is not specified
+        ELSE NoneRet        \* gap, or NaN: no bin
 
 Rets == {NoneRet} \cup (-1..4)
 
@@ -120,7 +120,6 @@ FillN(batch, weighted) ==
 FindBin(p, r) ==
     /\ Live
     /\ h # Null
-    /\ p # NaN
     /\ r = RetOf(h.bins, p)
     /\ UNCHANGED <<h, ghost>>
 
